@@ -42,7 +42,9 @@ RAISE_KINDS = ["RuntimeError", "SyntaxError", "SyntaxError", "ImportError", "Mod
                "badsibling", "badfile", "AttributeError", "KeyError",
                # exceptions that cannot be printed: str(e) / repr(e) raise (a message formatted eagerly inside the
                # `except` block would escape before the failure is recorded)
-               "BadStr", "BadRepr", "BadStrRepr", "Unprintable"]
+               "BadStr", "BadRepr", "BadStrRepr", "Unprintable",
+               # "resource" exceptions (all are Exception subclasses: recorded like any other failure)
+               "MemoryError", "RecursionError", "deeprec", "ENOSPC", "TimeoutError", "BufferError"]
 LAZY = ["la", "lb"]                         # attributes served by a module-level __getattr__ (PEP 562)
 DUNDERS = ["__class__", "__dict__", "__name__", "__doc__"]   # attributes every module has (some live on the module TYPE)
 
@@ -441,6 +443,34 @@ def gen_stale_case(seed, i):
     return {"i": i, "stream": "stale", "mods": mods, "db": db, "forget": [], "nss": nss, "preload": preload, "ops": ops}
 
 
+def gen_starforget_case(seed, i):
+    """__forget_imports__ with a star forget (`from pa import *`): it removes the from-imports of pa and of the
+    packages BELOW pa (dotted prefix) - not those of a look-alike sibling such as `pab`; a name that keeps two
+    live candidates stays ambiguous"""
+    r = cm.rng(seed, "c06-starforget", i)
+    P = r.choice(["pa", "qa"])
+    L = P + r.choice(["b", "x", "_"])                      # string-prefix look-alike of P
+    O = r.choice([t for t in TOPS if t != P])
+    mods = {P: dict(pkg=True, attrs=["xa", "xb"], raises=False), P + ".sa": dict(pkg=False, attrs=["xa"], raises=False),
+            L: dict(pkg=r.random() < .5, attrs=["xa", "xb"], raises=False), O: dict(pkg=False, attrs=["xa", "xb"], raises=False)}
+    db = [[L + ".xa", "xa"], [O + ".xa", "xa"],              # still ambiguous after the forget
+          [P + ".xb", "xb"], [P + ".sa.xa", "al"]]            # removed by the star forget
+    if r.random() < .5:
+        db.append([P + ".xa", "xa"])                           # a third candidate, removed
+    if r.random() < .5:
+        db.append([L + ".xb", "xb"])                           # xb: the look-alike's entry survives alone
+    if r.random() < .4:
+        db.append([P + ".sa", P + ".sa"])                      # a plain import is not touched by a star forget
+    r.shuffle(db)
+    forget = [[P + ".*", "*"]]
+    if r.random() < .3:
+        forget.append([P + ".sa.*", "*"])
+    codes = ["xa", "xa.zz , xb", "xb , xa", "al , xa + 1", "_x = xa\n_y = al.xb"]
+    ops = [{"op": "call", "code": r.choice(codes)}, {"op": "call", "code": r.choice(codes)}]
+    return {"i": i, "stream": "starforget", "mods": mods, "db": db, "forget": forget, "nss": [{}, {}][:r.choice([1, 2])],
+            "preload": [], "ops": ops}
+
+
 def gen_f21_case(seed, i):
     """DB with __forget_imports__ entries that empty a derived key (finding F21)."""
     r = cm.rng(seed, "c06-f21", i)
@@ -495,6 +525,10 @@ def write_world(root, mods):
             if kind != "BadStr":
                 src += "    def __repr__(self):\n        raise RuntimeError('repr of the exception fails')\n"
             src += "raise _E('boom')\n"
+        elif kind == "deeprec":
+            src += "def _f(n):\n    return _f(n + 1) + 1\n_f(0)\n"          # a genuinely too deep recursion
+        elif kind == "ENOSPC":
+            src += "raise OSError(28, 'No space left on device')\n"
         elif kind == "Unprintable":
             src += "class _A(object):\n    def __repr__(self):\n        raise RuntimeError('unprintable argument')\nraise ValueError(_A())\n"
         elif kind:
@@ -545,7 +579,7 @@ def child_main(case, root):
     sys.path.insert(0, root)
     roots = universe_roots(case)
     known = ImportSet([Import.from_parts(f, a) for f, a in case["db"]])
-    forget = ImportSet([Import.from_parts(f, a) for f, a in case["forget"]])
+    forget = ImportSet([Import("from %s import *" % f[:-2]) if a == "*" else Import.from_parts(f, a) for f, a in case["forget"]])
     db = ImportDB._from_data(known, [], [], forget) if case["forget"] else ImportDB(known)
     from pyflyby._log import logger as _pfl
     _pfl.set_level(case.get("loglevel", "ERROR"))
@@ -1038,12 +1072,19 @@ def prefixes(d):
 
 
 def spec_index(case, im):
-    """by_fullname_or_import_as as the property describes it, from the DB text itself: every import under its
-    local name, `import p` under every proper dotted prefix p of a full name; forgotten imports removed, keys
-    without candidate dropped.  (With a forget list the known set is taken as the DB object holds it: how
-    __forget_imports__ composes is C12's subject.)"""
-    known = [list(e) for e in (im["known"] if case.get("forget") else case["db"])]
-    forgotten = [list(e) for e in (im["forgotten"] if case.get("forget") else [])]
+    """by_fullname_or_import_as as the property describes it, computed from the DB text itself:
+    __forget_imports__ removes the listed imports, and a star forget `from P import *` removes every
+    from-import whose module is P or lies below P (dotted components, never a plain string prefix);
+    then every import under its local name and `import p` under every proper dotted prefix p of a full
+    name, minus the forgotten imports; keys without candidate are dropped."""
+    forgotten = [list(e) for e in case.get("forget", [])]
+    stars = [f[:-2] for f, a in forgotten if a == "*"]
+
+    def star_removed(full, as_):
+        if as_ == full or "." not in full:
+            return False                       # `import a.b` / `import a as b`: no module part
+        return any(p in stars for p in prefixes(full.rsplit(".", 1)[0]))
+    known = [list(e) for e in case["db"] if list(e) not in forgotten and not star_removed(*e)]
     d = {}
     for full, as_ in known:
         d.setdefault(as_, [])
@@ -1330,7 +1371,7 @@ def run_shared(ctx, prop, n=None, nf21=None):
     cases = (cm.load_corpus(prop) + [gen_case(ctx.seed, i) for i in range(n)]
              + [gen_shadow_case(ctx.seed, i) for i in range(nshadow)] + [gen_stale_case(ctx.seed, i) for i in range(nshadow // 2)]
              + [gen_large_case(ctx.seed, i, 70 if ctx.quick else 200) for i in range(3 * ctx.scale if n >= 600 else 0)]
-             + [gen_f21_case(ctx.seed, i) for i in range(nf21)])
+             + [gen_f21_case(ctx.seed, i) for i in range(nf21)] + [gen_starforget_case(ctx.seed, i) for i in range(nf21)])
     impl = cm.run_impl("c06", "impl_case", cases, timeout_case=40)
     exprs, nms, idxs = [], [], []
     for ci, (c, im) in enumerate(zip(cases, impl)):
